@@ -99,6 +99,10 @@ func newResult(t reflect.Type, opts resultOptions) (result, error) {
 					return nil, newErrInvalidInput(
 						fmt.Sprintf("invalid dig.As: %v does not implement %v", t, ifaceType), nil)
 				}
+				if containsType(asTypes, ifaceType) {
+					return nil, newErrInvalidInput(
+						fmt.Sprintf("invalid dig.As: %v is listed more than once", ifaceType), nil)
+				}
 				asTypes = append(asTypes, ifaceType)
 			}
 			if len(asTypes) > 0 {
@@ -542,4 +546,14 @@ func (rt resultGrouped) Extract(cw containerWriter, decorated bool, v reflect.Va
 	for i := 0; i < v.Len(); i++ {
 		cw.submitGroupedValue(rt.Group, rt.Type, v.Index(i))
 	}
+}
+
+// containsType reports whether ts contains t.
+func containsType(ts []reflect.Type, t reflect.Type) bool {
+	for _, x := range ts {
+		if x == t {
+			return true
+		}
+	}
+	return false
 }
